@@ -9,6 +9,10 @@ import (
 	"strings"
 )
 
+// thoroughTier is set by the driver for --tier thorough: more random schedules per
+// sample, every torn offset for short lines, and the >10 MB line in C12.
+var thoroughTier bool
+
 type RunReport struct {
 	Sc          *Scenario
 	V           []Violation
@@ -328,12 +332,12 @@ func planFor(prop string) *PropPlan {
 			quick = 72 // reader samples are cheap; writer kind x layout x reader kind needs more of them
 		}
 		p.Modes = []Mode{{Name: "conc", Quick: quick, Deep: 800,
-			Run:    func(bin string, seed uint64) *RunReport { return runConcSample(bin, prop, seed, false) },
+			Run:    func(bin string, seed uint64) *RunReport { return runConcSample(bin, prop, seed, thoroughTier) },
 			Replay: ReplayConc}}
 		p.Rule = "per sample: a seeded pre-state (sequential history) and one batch of 2-6 concurrent ergo processes; from the same snapshot the batch is executed under seeded random and sticky schedules and under EVERY single-preemption schedule of the designated processes (process A runs to its k-th .ergo system call, everybody else runs to completion, A resumes; k = 0..K); evaluations = batch executions; a sample is non-trivial when at least one batch ran; distinct = distinct trace digests of samples; distinct_interleavings counts distinct context-switch sequences (process role x call class)"
 	case "C12":
 		p.Modes = []Mode{seqMode(prop, 200, 6000), {Name: "corrupt", Quick: 120, Deep: 4000,
-			Run:    func(bin string, seed uint64) *RunReport { return runCorruptGenerated(bin, seed, false) },
+			Run:    func(bin string, seed uint64) *RunReport { return runCorruptGenerated(bin, seed, thoroughTier) },
 			Replay: ReplayScenario}}
 		p.Rule = "(a) seeded valid histories whose log is then damaged by one of 31 storage-fault kinds (bit flip, truncation anywhere, duplicated/swapped/dropped lines, conflict markers, junk, unknown event types, wrong field types, bad timestamps, duplicate creates, binary, NULs, BOM, CRLF, scalars, deep nesting, 64 KB and >10 MB lines, invalid UTF-8, semantic damage such as self/cyclic links) at a seeded position; against each damaged log 26 commands (all reads in JSON and human form, every mutation) run in the simulator: termination (watchdog), exit 0/1, no panic/signal, stderr explains, file:line named for non-JSON lines, reads byte-identical when repeated in a second process and free of mutating system calls, successful mutations only extend the event list; (b) seeded sequential histories with read purity, repeat-read determinism and history-prefix checks on valid logs; non-trivial = at least one command judged on a damaged log or one mutation in effect; distinct = distinct trace digests"
 	case "C18":
@@ -341,7 +345,7 @@ func planFor(prop string) *PropPlan {
 			Run:    func(bin string, seed uint64) *RunReport { return runLayoutGenerated(bin, seed) },
 			Replay: ReplayScenario},
 			{Name: "conc", Quick: 24, Deep: 400,
-				Run:    func(bin string, seed uint64) *RunReport { return runConcSample(bin, prop, seed, false) },
+				Run:    func(bin string, seed uint64) *RunReport { return runConcSample(bin, prop, seed, thoroughTier) },
 				Replay: ReplayConc}}
 		p.Rule = "seeded sequential histories in which every command draws a fresh start directory (depth 0-3, names with spaces) and --dir spelling (none, absolute, relative, the .ergo directory itself relative or absolute, trailing slash, .. segments); the store layout is drawn per run from plans-only, legacy events-only, both files (the unused one holds a decoy), lock-less, and shadowed by a decoy store in the enclosing directory; init (with and without a directory argument) and lock removal are inserted at seeded points; every step is judged by the sequential refinement oracle (a write through one spelling must be visible through all others; where must name the project's .ergo; init changes nothing); non-trivial = at least one mutation in effect; distinct = distinct trace digests"
 	case "C05":
@@ -352,7 +356,7 @@ func planFor(prop string) *PropPlan {
 	case "C03", "C04":
 		p.Level = "fault_enumeration"
 		p.Modes = []Mode{{Name: "crash", Quick: 60, Deep: 1500,
-			Run:    func(bin string, seed uint64) *RunReport { return runCrashSweep(bin, prop, seed, false) },
+			Run:    func(bin string, seed uint64) *RunReport { return runCrashSweep(bin, prop, seed, thoroughTier) },
 			Replay: ReplayCrash}}
 		if prop == "C04" {
 			p.Rule = "per sample: a seeded pre-state (sequential history; 1 in 4 with a stale .tmp left by an earlier killed rewrite) and one multi-event command (kind drawn first so that prune/plan/compact/sequence chains get their share; 1 in 3 with a 4-70 KB payload); the command's clean run yields its K visible system calls on .ergo; EVERY boundary k in 0..K is a kill point, plus a kill before the reply is written; after each kill the observation must equal the state before or the state after an uninterrupted twin run with the same clock and entropy; evaluations = sweep members executed; a sample is non-trivial when at least one kill fired; distinct = distinct trace digests of samples"
@@ -364,22 +368,22 @@ func planFor(prop string) *PropPlan {
 		p.Modes = []Mode{seqMode(prop, 400, 12000)}
 		if prop == "C06" || prop == "C11" || prop == "C14" || prop == "C15" || prop == "C20" {
 			p.Modes = append(p.Modes, Mode{Name: "conc", Quick: 12, Deep: 300,
-				Run:    func(bin string, seed uint64) *RunReport { return runConcSample(bin, prop, seed, false) },
+				Run:    func(bin string, seed uint64) *RunReport { return runConcSample(bin, prop, seed, thoroughTier) },
 				Replay: ReplayConc})
 		}
 		if prop == "C09" {
 			p.Modes = append(p.Modes, Mode{Name: "conc", Quick: 16, Deep: 400,
-				Run:    func(bin string, seed uint64) *RunReport { return runConcSample(bin, prop, seed, false) },
+				Run:    func(bin string, seed uint64) *RunReport { return runConcSample(bin, prop, seed, thoroughTier) },
 				Replay: ReplayConc})
 		}
 		if prop == "C10" {
 			p.Modes = append(p.Modes, Mode{Name: "conc", Quick: 24, Deep: 400,
-				Run:    func(bin string, seed uint64) *RunReport { return runConcSample(bin, prop, seed, false) },
+				Run:    func(bin string, seed uint64) *RunReport { return runConcSample(bin, prop, seed, thoroughTier) },
 				Replay: ReplayConc})
 		}
 		if prop == "C07" {
 			p.Modes = append(p.Modes, Mode{Name: "conc", Quick: 16, Deep: 400,
-				Run:    func(bin string, seed uint64) *RunReport { return runConcSample(bin, prop, seed, false) },
+				Run:    func(bin string, seed uint64) *RunReport { return runConcSample(bin, prop, seed, thoroughTier) },
 				Replay: ReplayConc})
 		}
 		p.Rule = "seeded sequential command histories (adaptive generator biased per property, all input modes, clock profile and short-I/O faults drawn per run) executed by real ergo processes under the simulator and judged step by step against the reference model, plus cross-invariants on every observation; a run is non-trivial when at least one mutation took effect; distinct = distinct trace digests of non-trivial runs"
